@@ -45,7 +45,7 @@ FUNC_NAME = {'ipv4': 'is_valid_ipv4', 'ipv4s': 'is_valid_ipv4(strict=True)', 'ip
              'ip': 'is_valid_ip', 'cidr': 'is_valid_cidr', 'cidr6': 'is_valid_ipv6_cidr',
              'mac': 'is_valid_mac', 'port': 'is_valid_port', 'icmp_type': 'is_valid_icmp_type',
              'icmp_code': 'is_valid_icmp_code'}
-REQUIRED_CLAUSES = (['concurrent-calls-answer-as-alone', 'documented-keyword-call', 'subclass-of-int-or-str-argument', 'answers-rather-than-raises', 'stdlib-agreement', 'scope-length-limit',
+REQUIRED_CLAUSES = (['under-warnings-as-errors', 'concurrent-calls-answer-as-alone', 'documented-keyword-call', 'subclass-of-int-or-str-argument', 'answers-rather-than-raises', 'stdlib-agreement', 'scope-length-limit',
                      'range-end-int', 'range-end-str', 'oracle-self-check'] +
                     ['must-accept:' + FUNC_NAME[v] for v in VALIDATORS] +
                     ['must-reject:' + FUNC_NAME[v] for v in VALIDATORS])
@@ -513,7 +513,7 @@ def wrap_int(v, how):
     return v
 
 
-def evaluate(ctx, case):
+def _evaluate_nomodes(ctx, case):
     funcs = _functions()
     kind = case['kind']
     if kind == 'int':
@@ -609,6 +609,10 @@ def evaluate(ctx, case):
                 ctx.fail('must-reject:' + FUNC_NAME[v], case,
                          {'validator': FUNC_NAME[v], 'text': text[:200], 'got': True,
                           'shape': violation_shape(v, text)})
+
+
+from vlib import envmodes  # noqa: E402
+evaluate = envmodes.with_modes(_evaluate_nomodes, warn=lambda case: True)
 
 
 # --------------------------------------------------------------------------
